@@ -24,6 +24,7 @@ type AIn struct {
 	Map  map[string]AIn
 	Disc string
 	Wait bool
+	Raw  bool // lit only: written as a plain (unquoted) YAML scalar exactly as given, e.g. false / no / 0
 }
 
 func lit(s string) AIn  { return AIn{K: "lit", Lit: s} }
@@ -97,6 +98,9 @@ func (a AIn) yaml(perm func(keys []string) []string) string {
 	}
 	switch a.K {
 	case "lit":
+		if a.Raw {
+			return a.Lit
+		}
 		return yq(a.Lit)
 	case "expr":
 		return "!expr " + yq(a.Src)
@@ -253,6 +257,7 @@ type genOpts struct {
 	waitFor     bool
 	evalFail    bool // expressions that can fail at run time (absent optional input, failing conversion, division by zero)
 	closureMs   int  // > 0: every step gets this closure_wait_timeout (keeps cancelled runs short)
+	litGates    bool // some steps get a LITERAL `enabled` (a spelling of the bool schema: the provider receives a string)
 }
 
 func stepName(i int) string { return fmt.Sprintf("s%d", i) }
@@ -346,6 +351,10 @@ func genWorkflow(r *rng, o genOpts) *AWf {
 			} else if hasField("flag") {
 				s.Fields["enabled"] = expr("$.input.flag")
 			}
+		}
+		if o.litGates && r.chance(1, 4) {
+			sp := []string{"true", "false", "yes", "no", "on", "off", "1", "0", "True", "FALSE"}
+			s.Fields["enabled"] = AIn{K: "lit", Lit: sp[r.intn(len(sp))], Raw: r.chance(1, 2)}
 		}
 		if o.stopIf && s.PlugStep == "op" && i > 0 && r.chance(1, 4) {
 			s.Fields["stop_if"] = expr(fmt.Sprintf("$.steps.%s.outputs", stepName(r.intn(i))))
